@@ -152,6 +152,9 @@ class NonBondEngine():
         and position tree.
         """
         gndx = self.nodes_to_gndx[(mol_idx, node_key)]
+        # a node that already has a position is moved and not added twice
+        if gndx in self.gndx_to_tree:
+            self.remove_positions(mol_idx, [node_key])
         self.positions[gndx] = point
 
         # at around 5000 coordinates it is faster to make a new tree than to add the
